@@ -128,6 +128,15 @@ func VH08b_star() {
 	lab := "C08/star/" + topoNames[tsel]
 	ms := build("star", tsel)
 	var bodies [][]byte
+	// one member (or none) has its own hop limit: any value (solver variable) that still admits the longest route
+	// ending at it. The limit governs what that member accepts - not what it passes on - so nothing else changes.
+	if at := verif.Choice("own-ttl-at", len(ms)+1) - 1; at >= 0 {
+		ecc := [][]int{{1, 1}, {2, 1, 2}, nil, {1, 2, 2}}[tsel][at]
+		t := verif.Int("ttl")
+		verif.Assume(verif.And(t >= ecc, t <= 255))
+		verif.Assert(ms[at].sock.SetOption(mangos.OptionTTL, t) == nil, lab+"/set-ttl")
+		verif.Reach("mixed-ttl")
+	}
 	emptyFrom := verif.Choice("empty-from", len(ms)+1) - 1 // one member (or none) sends a message with an empty body
 	for i, m := range ms {
 		b := []byte{byte('a' + i), verif.Byte("payload")}
